@@ -112,6 +112,19 @@ theorem harness_history_bytes {oa ob : Opts} {ra rb : List Nat} (c : Cfg oa ob r
       q.gb.rlog j <+: q.ga.wlog i :=
   established_bytes (stim_history_inv c l q h) e
 
+open Penguin.Mux Penguin.Pair in
+/-- … and after a `batch` stimulus (several application calls of one endpoint back to back before its
+    task runs — `Mux.applyBatch`, what the driver executes), applied to any reachable state of the
+    pair: it is a run of the fine-grained actions, so the invariant, and with it every `pair_*`
+    theorem, holds afterwards. -/
+theorem harness_batch_is_a_run {oa ob : Opts} {ra rb : List Nat} (c : Cfg oa ob ra rb) (as : List (Pair.Side × Pair.Act))
+    (q : PS) (ops : List Mux.Op) (acts : List Pair.Act) (hacts : ops.map actOf = acts.map some)
+    (hen : runL (Pair.run (Pair.init oa ob ra rb) as) acts = some q)
+    (hidle : Idle q.a) (hsr : q.a.sinkRoom = none) (hr : (settle q.a).1.rng ≠ []) :
+    let p := Pair.run (Pair.init oa ob ra rb) as
+    Pair.Inv { q with a := (applyBatch p.a ops).1, ab := p.ab ++ wiresOf (applyBatch p.a ops).2.2 } :=
+  batch_inv _ q (reach_inv c as) ops acts hacts hen hidle hsr hr
+
 /-! Non-vacuity of the pair theorems: a concrete run (windows 2, threshold 1) that opens a stream,
     writes three bytes, reads them in two reads, shuts down and reads end-of-stream. -/
 private def pcfg : Mux.Opts := { rwnd := 2, threshold := 1 }
